@@ -3,7 +3,7 @@ forms denote their mathematical value or overflow; underscores are ignored; esca
 of the modelled character class).  Correspondence: nested first-order values — the implementation's
 `{:?}` text vs. the model printer, the text read back by Variable::from_str vs. the model reader, and
 the text run as a program; integer literal forms vs. their mathematical value computed in Python."""
-import random
+import math, random, re
 
 from gen import ast as A
 from vlib import driver_run, esc_field, harness_run, sexp_parse, sexp_str, strip_tags
@@ -66,7 +66,19 @@ def lit_src(v):
         return "[" + ", ".join(lit_src(x) for x in v[1]) + "]"
     if k == "tuple":
         return "(" + ", ".join(lit_src(x) for x in v[1]) + ")"
+    if k == "f" and v[1] == 0.0 and math.copysign(1.0, v[1]) < 0:
+        # negative zero is built WITHOUT unary minus, so that the value under test does not depend on the very route
+        # (the text `-0.0` run as a program) whose result is being compared with it
+        return "(0.0 * (0.0 - 1.0))"
     return A.src(v)
+
+
+def floats_of(v):
+    if v[0] == "f":
+        return [A.fbits(v[1])]
+    if v[0] in ("array", "tuple"):
+        return [b for x in v[1] for b in floats_of(x)]
+    return []
 
 
 def int_forms(rnd, n):
@@ -110,13 +122,21 @@ def run(res, tier, seed, broken_model):
                           dict(oracle="value-api", cls=o[:25]))
             continue
         value, text, back, prog = s[1], s[2], s[3], s[4]
+        if re.findall(r"\(f ([0-9a-f]{16})\)", sexp_str(value)) != floats_of(v):
+            res.violation("the source `%s` did not build the intended floats: %s" % (lit_src(v)[:200], sexp_str(value)[:200]),
+                          dict(program=lit_src(v), impl=o), dict(oracle="value-api", cls="float-bits"))
+            continue
         res.nontrivial.add(sexp_str(value))
         res.count("depth-kind:" + v[0])
-        okb = isinstance(back, list) and back[0] == "parsed" and back[2] == "eq=1" and back[3] == "sametype=1"
+        # besides `==` (for which -0.0 and 0.0 are equal) the read-back value must be the same value bit for bit:
+        # the canonical forms (floats as bit patterns) are compared
+        okb = isinstance(back, list) and back[0] == "parsed" and back[2] == "eq=1" and back[3] == "sametype=1" and \
+            sexp_str(strip_tags(back[1])) == sexp_str(strip_tags(value))
         if not okb:
             res.violation("the printed text %s does not read back as the value (from_str): %s" % (text[:200], sexp_str(back)[:200]),
                           dict(program=lit_src(v), text=text, impl=o), dict(oracle="roundtrip", route="from_str", cls=back[0] if isinstance(back, list) else "?"))
-        okp = isinstance(prog, list) and prog[0] == "ran" and prog[2] == "eq=1" and prog[3] == "sametype=1"
+        okp = isinstance(prog, list) and prog[0] == "ran" and prog[2] == "eq=1" and prog[3] == "sametype=1" and \
+            sexp_str(strip_tags(prog[1])) == sexp_str(strip_tags(value))
         if not okp and not has_min(v):
             res.violation("the printed text %s does not evaluate to the value as a program: %s" % (text[:200], sexp_str(prog)[:200]),
                           dict(program=lit_src(v), text=text, impl=o), dict(oracle="roundtrip", route="program", cls=prog[0] if isinstance(prog, list) else "?"))
